@@ -948,3 +948,49 @@ Proof.
   specialize (Hnu a). apply not_true_iff_false in Hnu. rewrite g_is_used_get in Hnu.
   destruct (g_get (gcmap (hp v)) a); cbn; tauto.
 Qed.
+
+(* ============================================ decision helpers for concrete heaps *)
+Definition st_used (x : gcstate) : bool := match x with GUsed => true | _ => false end.
+
+Lemma no_used_by_elements : forall h,
+  forallb (fun kv => negb (st_used (snd kv))) (PositiveMap.elements (gcmap h)) = true -> no_used h.
+Proof.
+  intros h H a. unfold g_is_used, g_get, tget.
+  destruct (PositiveMap.find (N.succ_pos a) (gcmap h)) as [x|] eqn:E; [|reflexivity].
+  apply PositiveMap.elements_correct in E. rewrite forallb_forall in H.
+  specialize (H _ E). cbn in H. now destruct x.
+Qed.
+
+Lemma gmap_in_range_by_elements : forall h,
+  forallb (fun kv => (Pos.pred_N (fst kv) <? hlen h) || negb (st_used (snd kv)) && negb (st_alloc (snd kv)))
+          (PositiveMap.elements (gcmap h)) = true -> gmap_in_range h.
+Proof.
+  intros h H a Ha. unfold g_get, tget.
+  destruct (PositiveMap.find (N.succ_pos a) (gcmap h)) as [x|] eqn:E; [|reflexivity].
+  apply PositiveMap.elements_correct in E. rewrite forallb_forall in H.
+  specialize (H _ E). cbn [fst snd] in H. rewrite N.pos_pred_succ in H.
+  destruct (N.ltb_spec a (hlen h)); [lia|]. cbn in H. now destruct x.
+Qed.
+
+(* C12 stack_wipe_drops_roots: Stack::clear (stack.rs:40-43) leaves only Undefined slots,
+   which reference nothing *)
+Lemma stack_wipe_drops_roots : forall s n x a, In x (repeat VUndef n) -> ~ vref s x a.
+Proof.
+  intros s n x a Hin [k Hk]. apply repeat_spec in Hin. subst x. destruct k; cbn in Hk; exact Hk.
+Qed.
+
+(* a small machine state used as the non-vacuity witness of the theorems: a pair (cell 0)
+   of a symbol (1) and nil (2) on the stack, an unreachable cyclic pair (3), a vector cell
+   (4) in acc whose element points to a number (5); 6 and 7 are free *)
+Definition ex_heap : heap :=
+  mk_heap
+    (tset (tset (tset (tset (tset (tset tempty 0 (VPair 1 2)) 1 (VSym [97])) 2 VNil) 3 (VPair 3 3))
+                4 (VVec 0)) 5 (VNum (Fixnum 7)))
+    8 [7; 6]
+    (tset (tset (tset (tset (tset (tset tempty 0 GAllocated) 1 GAllocated) 2 GAllocated) 3 GAllocated)
+                4 GAllocated) 5 GAllocated)
+    [([97], 1)] 8.
+Definition ex_store : store :=
+  mk_store tempty (tset tempty 0 [VPtr 5]) tempty tempty tempty tempty 1.
+Definition ex_vm : vm :=
+  mk_vm ex_heap ex_store [] [] [VUndef; VPtr 0; VUndef] 1 0 USIZE_MAX (USIZE_MAX, 0) (VPtr 4) [] None.
